@@ -46,6 +46,115 @@ type memCase struct {
 	NoMidReads bool `json:"no_mid_reads,omitempty"`
 	// NoInitialReads: the memory is not read before the first store either.
 	NoInitialReads bool `json:"no_initial_reads,omitempty"`
+	// TopEnd: a single call on the range of MaxW bytes that ENDS exactly at 2^64 (it does
+	// not wrap): load | missing | store | new (Bytes created with a block there, then loaded)
+	TopEnd string `json:"top_end,omitempty"`
+}
+
+// memTopEndRun: the last MaxW bytes of the address space, [2^64-w, 2^64).
+func memTopEndRun(c memCase) *eng.Fail {
+	w := c.MaxW
+	addr := ^model.Addr(0) - model.Addr(w-1)
+	site := map[string]string{"sparse": "Sparse", "bytes": "Bytes", "overlay": "Overlay"}[c.Mem]
+	const tag = " [range ends at 2^64]"
+	bs := make([]byte, w)
+	for i := range bs {
+		bs[i] = byte(0xe0 + i)
+	}
+	val := expr.NewConst(bs, expr.Width(w))
+	var mem memory.Memory
+	mkBytes := func(top bool) (*memory.Bytes, *eng.Fail) {
+		in := []memory.ByteBlock{blk{16, []byte{0x55}}}
+		if top {
+			in = append(in, blk{addr, append([]byte{}, bs...)})
+		}
+		var bm *memory.Bytes
+		var err error
+		p, stack := eng.Catch(func() { bm, err = memory.NewBytes(in) })
+		if p != nil {
+			return nil, &eng.Fail{Sig: "NewBytes panic " + eng.PanicSite(stack) + tag, What: fmt.Sprintf("NewBytes with a block [2^64-%d, 2^64) panics: %v", w, p), Case: c}
+		}
+		if err != nil {
+			return nil, nil // refusing such a block is an answer
+		}
+		return bm, nil
+	}
+	switch c.Mem {
+	case "sparse":
+		mem = memory.NewSparse()
+	case "bytes":
+		bm, f := mkBytes(c.TopEnd == "new")
+		if f != nil || bm == nil {
+			return f
+		}
+		mem = bm
+	case "overlay":
+		if c.Base == "bytes" {
+			bm, f := mkBytes(c.TopEnd == "new")
+			if f != nil || bm == nil {
+				return f
+			}
+			mem = memory.NewOverlay(bm, memory.NewSparse())
+		} else {
+			mem = memory.NewOverlay(memory.NewSparse(), memory.NewSparse())
+		}
+	}
+	written := c.TopEnd == "new"
+	if c.TopEnd == "store" {
+		p, stack := eng.Catch(func() { mem.Store(addr, val, expr.Width(w)) })
+		if p != nil {
+			return &eng.Fail{Sig: site + ".Store panic " + eng.PanicSite(stack) + tag, What: fmt.Sprintf("%s.Store(2^64-%d, %s, %d) panics: %v", site, w, ir.Show(val), w, p), Case: c}
+		}
+		written = true
+	}
+	if c.TopEnd == "missing" {
+		p, stack := eng.Catch(func() { mem.Missing(addr, expr.Width(w)) })
+		if p != nil {
+			return &eng.Fail{Sig: site + ".Missing panic " + eng.PanicSite(stack) + tag, What: fmt.Sprintf("%s.Missing(2^64-%d, %d) panics: %v", site, w, w, p), Case: c}
+		}
+		return nil // the expected answer [2^64-w, 2^64) cannot be expressed as an interval of addresses: not judged
+	}
+	var ex expr.Expr
+	var ok bool
+	p, stack := eng.Catch(func() { ex, ok = mem.Load(addr, expr.Width(w)) })
+	if p != nil {
+		return &eng.Fail{Sig: site + ".Load panic " + eng.PanicSite(stack) + tag, What: fmt.Sprintf("%s.Load(2^64-%d, %d) panics (bytes written there: %v): %v", site, w, w, written, p), Case: c}
+	}
+	if ok != written {
+		return &eng.Fail{Sig: fmt.Sprintf("%s.Load availability %v-for-%v", site, ok, written) + tag, What: fmt.Sprintf("%s.Load(2^64-%d, %d) reports ok=%v, bytes written there: %v", site, w, w, ok, written), Case: c}
+	}
+	if ok {
+		if ex.Width() != expr.Width(w) {
+			return &eng.Fail{Sig: site + ".Load width" + tag, What: fmt.Sprintf("Load returned width %d", ex.Width()), Case: c}
+		}
+		if got := ir.Eval(ex, memEnv(memVals[0])); got.Cmp(ir.ConstVal(val)) != 0 {
+			return &eng.Fail{Sig: site + ".Load value" + tag, What: fmt.Sprintf("%s.Load(2^64-%d, %d) = %s evaluates to %x, written %x", site, w, w, ir.Show(ex), got, ir.ConstVal(val)), Case: c}
+		}
+	}
+	return nil
+}
+
+// memTopEnd runs the single-call cases on the last bytes of the address space.
+func memTopEnd(r *eng.Run, mems []memCase) {
+	for _, base := range mems {
+		for _, op := range []string{"load", "missing", "store", "new"} {
+			if op == "new" && base.Mem != "bytes" && base.Base != "bytes" {
+				continue
+			}
+			for _, w := range []int{1, 2, 4} {
+				c := base
+				c.TopEnd, c.MaxW = op, w
+				f := memTopEndRun(c)
+				r.Eval(1)
+				r.State(1)
+				r.Trace(1)
+				if f != nil {
+					r.Report(f)
+					r.Outcome(f.Sig)
+				}
+			}
+		}
+	}
 }
 
 // cell is one byte of the model: byte Idx of value Val adjusted to width W.
@@ -278,6 +387,9 @@ func blocksOverlap(bs []memBlock) bool {
 
 // memRun executes one case. The returned int counts transitions executed.
 func memRun(c memCase) (*eng.Fail, int) {
+	if c.TopEnd != "" {
+		return memTopEndRun(c), 1
+	}
 	var off model.Addr
 	if c.Top {
 		off = model.Addr(0) - model.Addr(c.MaxA+c.MaxW+16)
@@ -558,7 +670,7 @@ func memDo(r *eng.Run, c memCase) {
 func init() {
 	checks["C14"] = eng.Check{
 		Hist:        true,
-		Rule:        "Sparse memory: every history (no state merging) of <=2 stores over the full alphabet (addr 0..5 x width 1..4 x value kinds {exact constant, symbolic register, value narrower than the write, value wider than the write, wide symbolic}) and of 3 stores (quick: addr 0..4, widths 1..4, kinds const/sym; thorough: full alphabet; thorough also 4 stores over addr 0..3, widths 1..3, const/sym; plus histories of 2..3 stores ending with a store of exactly the bytes the memory already holds there), on a fresh real Sparse each; after each history every Load(a,w), Missing(a,w) for a in 0..8, w in 1..4 and Blocks() compared with a byte map (values under 3 valuations); digests of all values handed in / returned mid-history re-checked at the end. Between the stores of a history the memory is read as well (Load and Missing at the narrowest and widest width from every address, Blocks()), so that anything cached by a read has to survive the next store; histories of 2 stores are additionally run with no reads between the stores and with no reads before the end; wide loads (every width 1..72) over three layouts of many blocks. Repeated with all addresses shifted to just below 2^64. Non-trivial = history of >=2 stores.",
+		Rule:        "Sparse memory: every history (no state merging) of <=2 stores over the full alphabet (addr 0..5 x width 1..4 x value kinds {exact constant, symbolic register, value narrower than the write, value wider than the write, wide symbolic}) and of 3 stores (quick: addr 0..4, widths 1..4, kinds const/sym; thorough: full alphabet; thorough also 4 stores over addr 0..3, widths 1..3, const/sym; plus histories of 2..3 stores ending with a store of exactly the bytes the memory already holds there), on a fresh real Sparse each; after each history every Load(a,w), Missing(a,w) for a in 0..8, w in 1..4 and Blocks() compared with a byte map (values under 3 valuations); digests of all values handed in / returned mid-history re-checked at the end. Between the stores of a history the memory is read as well (Load and Missing at the narrowest and widest width from every address, Blocks()), so that anything cached by a read has to survive the next store; histories of 2 stores are additionally run with no reads between the stores and with no reads before the end; wide loads (every width 1..72) over three layouts of many blocks. Repeated with all addresses shifted to just below 2^64; single Load / Missing / Store calls on the ranges of 1, 2 and 4 bytes that end exactly at 2^64. Non-trivial = history of >=2 stores.",
 		Assumptions: []string{"address ranges do not wrap around 2^64", "write widths 1..4 (wider writes are covered by a few hand-picked wide cases only)"},
 		Run: func(r *eng.Run) {
 			full := memAlpha(seq(0, 5), seq(1, 4), []string{"const", "sym", "narrow", "wide", "symwide"})
@@ -620,6 +732,7 @@ func init() {
 				memDo(r, memCase{Mem: "sparse", Ops: lay, MaxA: 3, MaxW: 72})
 				memDo(r, memCase{Mem: "overlay", Base: "bytes", Blocks: []memBlock{{2, "b2b3b4"}, {35, "c5"}}, Ops: lay, MaxA: 3, MaxW: 72})
 			}
+			memTopEnd(r, []memCase{{Mem: "sparse"}})
 			r.Sample(memCase{Mem: "sparse", Ops: []memOp{{0, 4, "sym"}, {1, 2, "const"}, {2, 4, "wide"}}, MaxA: 8, MaxW: 4})
 		},
 		Replay: memReplay,
